@@ -57,6 +57,9 @@ pub struct OpRec {
     /// exit instant as planned at the moment the op started (signals sent during the op may change it)
     pub exit_at_before: Option<i64>,
     pub exit_at_after: Option<i64>,
+    /// the child was stopped (job control) when the operation ended; signals are
+    /// sent by operations only, so it was stopped during the whole operation too
+    pub stopped_after: bool,
     pub dead_after: bool,
     pub agg: Agg,
 }
@@ -194,7 +197,7 @@ pub fn run_proc(case: &ProcCase) -> ProcOutcome {
                 DETACHED.with(|d| d.set(true));
             }
             let sim = unsafe { &mut *simp };
-            recs.push(OpRec { op, res, log_from, log_to: sim.log.len(), t_before, t_after: sim.now, exit_at_before, exit_at_after: sim.exit_at, dead_after: sim.dead(), agg: sim.agg });
+            recs.push(OpRec { op, res, log_from, log_to: sim.log.len(), t_before, t_after: sim.now, exit_at_before, exit_at_after: sim.exit_at, stopped_after: sim.stopped, dead_after: sim.dead(), agg: sim.agg });
         }
         // final drop (if still alive in the model the harness makes it mortal first)
         let sim = unsafe { &mut *simp };
@@ -208,7 +211,7 @@ pub fn run_proc(case: &ProcCase) -> ProcOutcome {
             let t_before = sim.now;
             drop(p);
             let sim = unsafe { &mut *simp };
-            recs.push(OpRec { op: HOp::Drop, res: OpResult::Skipped("implicit"), log_from: from, log_to: sim.log.len(), t_before, t_after: sim.now, exit_at_before: sim.exit_at, exit_at_after: sim.exit_at, dead_after: sim.dead(), agg: Agg::default() });
+            recs.push(OpRec { op: HOp::Drop, res: OpResult::Skipped("implicit"), log_from: from, log_to: sim.log.len(), t_before, t_after: sim.now, exit_at_before: sim.exit_at, exit_at_after: sim.exit_at, stopped_after: sim.stopped, dead_after: sim.dead(), agg: Agg::default() });
         }
     }));
     ip::IN_LIB.store(false, SeqCst);
@@ -397,7 +400,9 @@ pub fn judge(focus: Focus, case: &ProcCase, o: &ProcOutcome, rep: &mut CaseRepor
                                 let t0 = r.t_before;
                                 let tr = r.t_after;
                                 let dl = t0.saturating_add(d);
-                                let x = r.exit_at_after; // includes signals sent earlier
+                                // includes signals sent earlier; a stopped child does not exit
+                                // (its exit is put off until somebody continues it)
+                                let x = if r.stopped_after { None } else { r.exit_at_after };
                                 if r.agg.blocking_wait {
                                     return fail("wait_timeout-blocks", format!("op #{}: blocking waitpid inside wait_timeout", i));
                                 }
